@@ -56,12 +56,25 @@ def lazy_library_sort(ctx, repo):
         ctx.ok("IDEMP", "C08.regions.sorted_once", "the cell model does not hand out the library's own region lists together with a lazy exact-area "
                "call", ci.module.relpath)
         return
-    eager = [c for c in ast.walk(init.node) if isinstance(c, ast.Call) and isinstance(c.func, ast.Attribute) and c.func.attr == "sort_vertices_of_regions"]
+    # the eager sort may sit in a private helper that the constructor calls
+    from ..astutil import splice_self_calls as _spl
+    init_view = _spl(ci, init.node, module=ci.module)
+    eager = [c for c in ast.walk(init_view) if isinstance(c, ast.Call) and isinstance(c.func, ast.Attribute) and c.func.attr == "sort_vertices_of_regions"]
     deep = any(isinstance(c, ast.Call) and src(c.func).split(".")[-1] == "deepcopy" and "regions" in src(c) for cls_ in ci.mro() for fm in cls_.methods.values()
-               for c in ast.walk(fm.node))
+               for c in ast.walk(fm.node)) or \
+        any(isinstance(c, ast.ListComp) and "regions" in src(c.generators[0].iter) + src(c.generators[0].iter if True else c) and
+            ((isinstance(c.elt, ast.Call) and src(c.elt.func).split(".")[-1] in ("list", "copy", "sorted", "array", "tuple")) or
+             (isinstance(c.elt, ast.Subscript) and isinstance(c.elt.slice, ast.Slice)))
+            for cls_ in ci.mro() for fm in cls_.methods.values() if fm.name in ("__init__", "_create_centers_vertices_regions")
+            for c in ast.walk(fm.node))
     if eager:
-        sup = [c for c in ast.walk(init.node) if isinstance(c, ast.Call) and src(c.func) == "super().__init__"]
-        before = not sup or all(e_.lineno < sup[0].lineno for e_ in eager)
+        def stmt_index(call):
+            for k_, st_ in enumerate(init_view.body):
+                if any(x is call for x in ast.walk(st_)):
+                    return k_
+            return None
+        sup = [c for c in ast.walk(init_view) if isinstance(c, ast.Call) and src(c.func) == "super().__init__"]
+        before = not sup or all(stmt_index(e_) is not None and stmt_index(sup[0]) is not None and stmt_index(e_) < stmt_index(sup[0]) for e_ in eager)
         ctx.check(before, "IDEMP", "C08.regions.sorted_once", "the region vertex lists are sorted once, at construction, before they are stored: the "
                   "lazy in-place sort inside calculate_areas() finds them sorted and changes nothing", init.where, src(eager[0])[:80],
                   witness="the eager sort comes after the regions were stored")
